@@ -26,6 +26,7 @@
 import Resolved.Props.C03
 import Resolved.Props.C04
 import Resolved.Proofs.ServerLemmas
+import Resolved.GeneratedServer
 
 namespace Resolved
 
@@ -1263,5 +1264,122 @@ example : ∀ q b, srvResultWF (C09ex.authResolver q b) := fun _ _ => by
   unfold C09ex.authResolver srvResultWF; decide
 example : ∀ q b rec, C09ex.authResolver q b = .ok rec → rec.rrs.length < 65536 := by
   intro q b rec h; cases h; decide
+
+/-! ### The server's decision logic as TRANSLATED FROM THE SOURCE on this run
+
+`bin/extract.py` regenerates `Gen.triageLogic`, `Gen.buildResponseLogic`, `Gen.handleRawMessageLogic`
+and `Gen.serialiseResponseLogic` from `crates/resolved/src/main.rs` on every run: the bodies of the
+four functions, line by line, with logging and metrics removed.  The theorems below pin them to the
+text the hand-written model (`Model/Server.lean`: `triage`, `resolveAndBuildResponse`,
+`handleRawMessage`, `serialiseResponse`) was written from, so that an edit of the Rust decision
+logic breaks a proof obligation even where no generated datagram reaches the changed branch; the
+check then searches model and implementation for a failing input (streams `server`, `server-real`). -/
+
+theorem C09_triage_logic_from_source : Gen.triageLogic = [
+  "if query.questions.is_empty() {",
+  "Ok(None)",
+  "} else if query.questions.len() == 1 {",
+  "let question = &query.questions[0];",
+  "if question.is_unknown() {",
+  "Err(REFUSED_FOR_UNKNOWN_QTYPE_OR_QCLASS)",
+  "} else {",
+  "Ok(Some(question))",
+  "}",
+  "} else {",
+  "Err(REFUSED_FOR_MULTIPLE_QUESTIONS)",
+  "}"] := rfl
+
+theorem C09_build_response_logic_from_source : Gen.buildResponseLogic = [
+  "let mut response = query.make_response();",
+  "response.header.recursion_available = !args.authoritative_only;",
+  "match triage(&query) {",
+  "Err(reason) => {",
+  "response.header.rcode = Rcode::Refused;",
+  "}",
+  "Ok(None) => {}",
+  "Ok(Some(question)) => {",
+  "let zones = args.zones_lock.read().await;",
+  "let (metrics, answer) = resolve(",
+  "query.header.recursion_desired && response.header.recursion_available,",
+  "args.protocol_mode,",
+  "args.upstream_dns_port,",
+  "args.forward_address,",
+  "&zones,",
+  "&args.cache,",
+  "question,",
+  ")",
+  ".await;",
+  "let message = match answer {",
+  "Ok(rr) => {",
+  "match rr {",
+  "ResolvedRecord::Authoritative { mut rrs, soa_rr } => {",
+  "response.answers.append(&mut rrs);",
+  "response.authority.push(soa_rr);",
+  "response.header.is_authoritative = true;",
+  "}",
+  "ResolvedRecord::AuthoritativeNameError { soa_rr } => {",
+  "response.authority.push(soa_rr);",
+  "response.header.rcode = Rcode::NameError;",
+  "response.header.is_authoritative = true;",
+  "}",
+  "ResolvedRecord::NonAuthoritative { mut rrs, soa_rr } => {",
+  "response.answers.append(&mut rrs);",
+  "if let Some(soa_rr) = soa_rr {",
+  "response.authority.push(soa_rr);",
+  "}",
+  "response.header.is_authoritative = false;",
+  "}",
+  "}",
+  "\"ok\".to_string()",
+  "}",
+  "Err(err) => format!(\"error: {err}\"),",
+  "};",
+  "}",
+  "}",
+  "prune_cache_and_update_metrics(&args.cache);",
+  "if response.answers.is_empty()",
+  "&& response.authority.is_empty()",
+  "&& response.header.rcode == Rcode::NoError",
+  "{",
+  "response.header.rcode = Rcode::ServerFailure;",
+  "response.header.is_authoritative = false;",
+  "}",
+  "response"] := rfl
+
+theorem C09_handle_raw_message_logic_from_source : Gen.handleRawMessageLogic = [
+  "let res = Message::from_octets(buf);",
+  "match res {",
+  "Ok(msg) => {",
+  "if msg.header.is_response {",
+  "None",
+  "} else if msg.header.opcode == Opcode::Standard {",
+  "Some(resolve_and_build_response(args, msg).await)",
+  "} else {",
+  "let mut response = msg.make_response();",
+  "response.header.rcode = Rcode::NotImplemented;",
+  "Some(response)",
+  "}",
+  "}",
+  "Err(err) => err.id().map(Message::make_format_error_response),",
+  "}"] := rfl
+
+theorem C09_serialise_response_logic_from_source : Gen.serialiseResponseLogic = [
+  "match message.to_octets() {",
+  "Ok(serialised) => Some((message, serialised)),",
+  "Err(error) => {",
+  "let mut fallback = message;",
+  "fallback.answers.clear();",
+  "fallback.authority.clear();",
+  "fallback.additional.clear();",
+  "fallback.header.rcode = Rcode::ServerFailure;",
+  "fallback.header.is_authoritative = false;",
+  "match fallback.to_octets() {",
+  "Ok(serialised) => Some((fallback, serialised)),",
+  "Err(error) => {",
+  "None",
+  "}",
+  "}",
+  "}",
+  "}"] := rfl
 
 end Resolved
